@@ -3,7 +3,10 @@
    variables: the round-trip theorem assumes exactly that decode inverts encode on that key.
    `httparse` and `serde_bencode` (the bundled client's reply parser) are not modelled: "parses
    back to an equal reply" is checked on the implementation by the correspondence run only. *)
+From Coq Require Import String.
 From Aquatic Require Import HttpCodec Bencode HttpCodecFacts.
+From Coq Require Import List.
+Import ListNotations.
 Local Open Scope N_scope.
 
 (* identifiers: every 20-byte value written by the library decodes back ... *)
